@@ -1,33 +1,60 @@
 #!/usr/bin/env python3
-"""Imports confirmed seeded changes from /tmp/mut/out into /verif/seeded/<id>/ and prints the catch table.
-A seed is kept only if tools/seed_confirm.sh confirmed: applies, 668/668 baseline with the change,
-demo fails with the change, demo passes without it."""
+"""Imports confirmed seeded changes from /tmp/mut/out into /verif/seeded/<id>/ and writes the catch table
+(/verif/seeded/TABLE.md, also printed).
+A seed is kept only if the coordinator confirmed (tools/seed_confirm.sh or tools/seed_confirm_batch.sh, in a
+scratch worktree): the patch applies, the 668 pinned tests pass with the change, the demo fails with the
+change and passes without it.
+Evaluation logs (/tmp/seedeval/results/<seed>.*.log, written by tools/seeded_run.sh) are read in time order;
+for each (seed, property) the LAST run is the verdict, earlier runs are kept as history (a miss followed by
+a catch means the check was strengthened in between)."""
 import json, os, glob, re, shutil, sys
 OUT='/tmp/mut/out'; RES='/tmp/seedeval/results'; DST='/verif/seeded'
+NOTES=json.load(open('/verif/tools/seed_notes.json')) if os.path.exists('/verif/tools/seed_notes.json') else {}
 rows=[]
 for d in sorted(glob.glob(f'{OUT}/C*')):
     sid=os.path.basename(d)
     if not os.path.exists(f'{d}/patch.diff') or not os.path.exists(f'{d}/meta.json'): continue
     conf=json.load(open(f'{d}/confirm.json')) if os.path.exists(f'{d}/confirm.json') else None
     det=[]
-    for f in sorted(glob.glob(f'{RES}/{sid}.*.log')):
+    for f in sorted(glob.glob(f'{RES}/{sid}.*.log'), key=os.path.getmtime):
         txt=open(f,errors='replace').read()
-        sigs=sorted(set(re.findall(r'^VIOLATION property=\S+ (?:replay=\S+ )?signature=(\S+)',txt,re.M)))
+        # one log may hold several runs (sibling properties): split at SEEDED-RESULT lines
+        pos=0
         for m in re.finditer(r'SEEDED-RESULT seed=\S+ property=(\S+) tier=(\S+) exit=(\d+)',txt):
+            part=txt[pos:m.end()]; pos=m.end()
+            sigs=sorted(set(re.findall(r'^VIOLATION property=\S+ (?:replay=\S+ )?signature=(\S+)',part,re.M)))
             det.append({'property':m.group(1),'tier':m.group(2),'exit':int(m.group(3)),'log':os.path.basename(f),
+                        'when':int(os.path.getmtime(f)),
                         'new_signatures':[s for s in sigs if s.startswith(m.group(1)+'/')][:6],
-                        'capped':'exhaustive=false' in txt})
-        if 'patch does not apply' in txt: det.append({'note':'patch does not apply to current HEAD'})
-    ok = conf and all(conf.get(k)=='true' for k in ('applies','baseline_668_with_change','demo_fails_with_change','demo_passes_without_change'))
-    caught=[x for x in det if x.get('exit')==1]
-    rows.append((sid, 'confirmed' if ok else ('unconfirmed' if conf is None else 'REJECTED'), caught, det))
+                        'capped':'exhaustive=false' in part})
+        if 'patch does not apply' in txt: det.append({'note':'patch does not apply to current HEAD','log':os.path.basename(f)})
+    ok = conf and all(str(conf.get(k))=='true' for k in ('applies','baseline_668_with_change','demo_fails_with_change','demo_passes_without_change'))
+    last={}
+    for x in det:
+        if 'property' in x: last[x['property']]=x
+    caught=sorted(p for p,x in last.items() if x['exit']==1)
+    missed_first=sorted(p for p in caught if any(y.get('property')==p and y['exit']==0 for y in det))
+    rows.append((sid, 'confirmed' if ok else ('unconfirmed' if conf is None else 'REJECTED'), caught, missed_first, last, det, d))
     if ok:
         os.makedirs(f'{DST}/{sid}',exist_ok=True)
         shutil.copy(f'{d}/patch.diff',f'{DST}/{sid}/patch.diff'); shutil.copy(f'{d}/demo.rs',f'{DST}/{sid}/demo.rs')
         meta=json.load(open(f'{d}/meta.json'))
-        meta['confirmed_by_coordinator']={'how':'tools/seed_confirm.sh in a scratch worktree of /repo HEAD %s: git apply; tools/baseline.sh (668 pinned tests); cargo nextest run --test <demo> with and without the change'%conf.get('head'), **conf}
-        meta['checked_with']=[{'cmd':f"tools/seeded_run.sh seeded/{sid} {x['property']} {x['tier']}", 'exit':x['exit'], 'new_signatures':x.get('new_signatures',[]), 'capped_run':x.get('capped',False)} for x in det if 'property' in x]
-        meta['caught_by']=sorted({x['property'] for x in caught})
+        how=('tools/seed_confirm_batch.sh' if 'baseline_batch' in conf else 'tools/seed_confirm.sh')+' in a scratch worktree of /repo HEAD %s: git apply; tools/baseline.sh (668 pinned tests%s); cargo nextest run --test <demo> with the change alone (fails) and on the clean tree (passes)'%(conf.get('head'), ', run once with the changes of the batch applied together' if 'baseline_batch' in conf else '')
+        meta['confirmed_by_coordinator']={'how':how, **conf}
+        meta['checked_with']=[{'cmd':f"tools/seeded_run.sh seeded/{sid} {x['property']} {x['tier']}", 'exit':x['exit'], 'new_signatures':x.get('new_signatures',[]), 'capped_run':x.get('capped',False), 'log':x['log']} for x in det if 'property' in x]
+        meta['caught_by']=caught
+        if sid in NOTES: meta['coordinator_note']=NOTES[sid]
         json.dump(meta,open(f'{DST}/{sid}/meta.json','w'),indent=1)
-for sid,st,caught,det in rows:
-    print(f"{sid:8} {st:12} caught_by={sorted({x['property'] for x in caught})} runs={[(x.get('property'),x.get('exit'),'capped' if x.get('capped') else '') for x in det if 'property' in x]}")
+lines=['| seed | change | kept | final verdict (last run per property) | note |','|---|---|---|---|---|']
+for sid,st,caught,missed_first,last,det,d in rows:
+    meta=json.load(open(f'{d}/meta.json'))
+    title=(meta.get('title') or meta.get('what_it_breaks') or '')[:110].replace('|','/')
+    verdict=', '.join(f"{p}: {'**caught**' if x['exit']==1 else ('missed (capped run)' if x['capped'] else 'missed')}" + (f" `{x['new_signatures'][0][:70]}`" if x['exit']==1 and x['new_signatures'] else '') for p,x in sorted(last.items()))
+    note=NOTES.get(sid,'')
+    if missed_first and not note: note='first missed by '+', '.join(missed_first)+'; caught after the check was strengthened'
+    lines.append(f"| {sid} | {title} | {'yes' if st=='confirmed' else st} | {verdict or 'not evaluated'} | {note} |")
+os.makedirs(DST,exist_ok=True)
+open(f'{DST}/TABLE.md','w').write('\n'.join(lines)+'\n')
+print('\n'.join(lines))
+n_ok=sum(1 for r in rows if r[1]=='confirmed'); n_c=sum(1 for r in rows if r[1]=='confirmed' and r[2])
+print(f"\n{len(rows)} seeds, {n_ok} confirmed and kept, {n_c} of those caught by at least one check", file=sys.stderr)
